@@ -767,12 +767,14 @@ where
             let mut low_sc = None;
             let mut low_idx = None;
             for &pidx in self.grm.rule_to_prods(p_ridx).iter() {
-                let mut sc = 0;
+                let mut sc: u16 = 0;
                 for sym in self.grm.prod(pidx).iter() {
-                    sc += match *sym {
+                    // Rules which can't generate a sentence cost u16::MAX: saturate rather than
+                    // wrap so that productions referencing them are never the cheapest.
+                    sc = sc.saturating_add(match *sym {
                         Symbol::Rule(i) => self.min_sentence_cost(i),
                         Symbol::Token(i) => u16::from(self.token_costs[usize::from(i)]),
-                    };
+                    });
                 }
                 if low_sc.is_none() || Some(sc) < low_sc {
                     low_sc = Some(sc);
@@ -808,12 +810,12 @@ where
             let mut low_sc = None;
             let mut low_idxs = vec![];
             for &pidx in self.grm.rule_to_prods(p_ridx).iter() {
-                let mut sc = 0;
+                let mut sc: u16 = 0;
                 for sym in self.grm.prod(pidx).iter() {
-                    sc += match *sym {
+                    sc = sc.saturating_add(match *sym {
                         Symbol::Rule(s_ridx) => self.min_sentence_cost(s_ridx),
                         Symbol::Token(s_tidx) => u16::from(self.token_costs[usize::from(s_tidx)]),
-                    };
+                    });
                 }
                 if low_sc.is_none() || Some(sc) <= low_sc {
                     if Some(sc) < low_sc {
@@ -913,38 +915,36 @@ where
     usize: AsPrimitive<StorageT>,
 {
     // We use a simple(ish) fixed-point algorithm to determine costs. We maintain two lists
-    // "costs" and "done". An integer costs[i] starts at 0 and monotonically increments
-    // until done[i] is true, at which point costs[i] value is fixed. We also use the done
-    // list as a simple "todo" list: whilst there is at least one false value in done, there is
-    // still work to do.
+    // "costs" and "done": costs[i] is only meaningful once done[i] is true, at which point its
+    // value is fixed. We also use the done list as a simple "todo" list: whilst there is at least
+    // one false value in done, there is still work to do.
     //
-    // On each iteration of the loop, we examine each rule in the todo list to see if
-    // we can get a better idea of its true cost. Some are trivial:
-    //   * A rule with an empty production immediately has a cost of 0.
-    //   * Rules whose productions don't reference any rules (i.e. only contain tokens) can be
-    //     immediately given a cost by calculating the lowest-cost production.
-    // However if a rule A references another rule B, we may need to wait until
-    // we've fully analysed B before we can cost A. This might seem to cause problems with
-    // recursive rules, so we introduce the concept of "incomplete costs" i.e. if a production
-    // references a rule we can work out its minimum possible cost simply by counting
-    // the production's token costs. Since rules can have a mix of complete and
-    // incomplete productions, this is sometimes enough to allow us to assign a final cost to
-    // a rule (if the lowest complete production's cost is lower than or equal to all
-    // the lowest incomplete production's cost). This allows us to make progress, since it
-    // means that we can iteratively improve our knowledge of a token's minimum cost:
-    // eventually we will reach a point where we can determine it definitively.
+    // A production is "complete" if every rule it references is done, at which point we know its
+    // exact cost. Some are trivially complete:
+    //   * An empty production has a cost of 0.
+    //   * Productions which don't reference any rules (i.e. only contain tokens).
+    // A rule can have a mix of complete and incomplete productions, and an incomplete production
+    // might yet turn out to be cheaper than all the complete ones. However, amongst all the
+    // rules which aren't done, the one whose cheapest complete production is cheapest overall
+    // cannot be improved upon: every incomplete production references a rule which isn't done,
+    // whose eventual cost will be at least as high. This allows us to make progress on every
+    // iteration, even for recursive rules. Rules which cannot generate any sentence at all never
+    // gain a complete production and are given the cost u16::MAX.
 
     let mut costs = vec![0; usize::from(grm.rules_len())];
     let mut done = vec![false; usize::from(grm.rules_len())];
     loop {
-        let mut all_done = true;
+        // On each iteration we find, for every rule not yet done, its lowest cost complete
+        // production (i.e. one which only references done rules). The rule(s) with the globally
+        // lowest such cost can be completed: token costs are never negative, so any production
+        // which references a rule which isn't yet done must cost at least as much.
+        let mut ls_cmplts = vec![None; done.len()]; // lowest completed cost per rule
+        let mut lowest = None;
         for i in 0..done.len() {
             if done[i] {
                 continue;
             }
-            all_done = false;
-            let mut ls_cmplt = None; // lowest completed cost
-            let mut ls_noncmplt = None; // lowest non-completed cost
+            let mut ls_cmplt = None;
 
             // The call to as_() is guaranteed safe because done.len() == grm.rules_len(), and
             // we guarantee that grm.rules_len() can fit in StorageT.
@@ -957,6 +957,7 @@ where
                         Symbol::Rule(ridx) => {
                             if !done[usize::from(ridx)] {
                                 cmplt = false;
+                                break;
                             }
                             costs[usize::from(ridx)]
                         }
@@ -967,23 +968,33 @@ where
                 }
                 if cmplt && (ls_cmplt.is_none() || Some(c) < ls_cmplt) {
                     ls_cmplt = Some(c);
-                } else if !cmplt && (ls_noncmplt.is_none() || Some(c) < ls_noncmplt) {
-                    ls_noncmplt = Some(c);
                 }
             }
-            if let Some(low_cmplt) = ls_cmplt
-                && (ls_noncmplt.is_none() || ls_cmplt < ls_noncmplt)
-            {
-                debug_assert!(low_cmplt >= costs[i]);
-                costs[i] = low_cmplt;
-                done[i] = true;
-            } else if let Some(ls_noncmplt) = ls_noncmplt {
-                debug_assert!(ls_noncmplt >= costs[i]);
-                costs[i] = ls_noncmplt;
+            ls_cmplts[i] = ls_cmplt;
+            if ls_cmplt.is_some() && (lowest.is_none() || ls_cmplt < lowest) {
+                lowest = ls_cmplt;
             }
         }
-        if all_done {
-            debug_assert!(done.iter().all(|x| *x));
+        match lowest {
+            Some(low) => {
+                for i in 0..done.len() {
+                    if !done[i] && ls_cmplts[i] == Some(low) {
+                        costs[i] = low;
+                        done[i] = true;
+                    }
+                }
+            }
+            None => {
+                // None of the remaining rules (if any) can generate a sentence.
+                for i in 0..done.len() {
+                    if !done[i] {
+                        costs[i] = u16::MAX;
+                        done[i] = true;
+                    }
+                }
+            }
+        }
+        if done.iter().all(|x| *x) {
             break;
         }
     }
